@@ -42,12 +42,15 @@ func init() {
 			{Name: "router-mutates-message", File: "floodsub.go", Old: "func (fs *FloodSubRouter) Publish(msg *Message) {\n", New: "func (fs *FloodSubRouter) Publish(msg *Message) {\n\tif msg.Message.Key != nil && len(msg.Message.Key) == 0 {\n\t\tmsg.Message.Key = nil\n\t}\n", Expect: "R03.6"},
 		}})
 	register(&Property{ID: "C16", Run: runC16,
-		Explain: "Structural necessary conditions of C16: (R16.1) shouldPush admits a message only on the false edges of blacklist.Contains(forwarder) and blacklist.Contains(author), and remote messages reach pushMsg only through shouldPush; (R16.2) the blacklistPeer arm of the event loop always calls blacklist.Add and, when a queue exists, closes it, deletes it from p.peers, clears topic state and notifies the router; (R16.3) the newPeerStream arm sends the hello packet only on the false edge of blacklist.Contains and on the true edge closes/removes the queue and resets the stream; handlePendingPeers creates a queue only on the false edge; (R16.4) every outbound push takes its queue from p.peers (lookup/range) in the same event-loop step; (R16.5) both Blacklist implementations use the same key in Add and Contains; (R16.6) a message that was inside the validation pipeline when its forwarder or author was blacklisted is not delivered: the sendMsg arm of the event loop reaches publishMessage only on the false edges of blacklist.Contains(ReceivedFrom) and Contains(author); (shared R15.5/R15.6) a closed queue hands out nothing, even with a backlog, and the writer leaves on the error. NOT decided: expiry of the time-cached blacklist; messages a validation worker hands to the event loop in the same instant the blacklisting is processed are ordered by the loop's select (either order satisfies the property).",
+		Explain: "Structural necessary conditions of C16: (R16.1) shouldPush admits a message only on the false edges of blacklist.Contains(forwarder) and blacklist.Contains(author), and remote messages reach pushMsg only through shouldPush; (R16.2) the blacklistPeer arm of the event loop always calls blacklist.Add and, when a queue exists, closes it, deletes it from p.peers, clears topic state and notifies the router; (R16.3) the newPeerStream arm sends the hello packet only on the false edge of blacklist.Contains and on the true edge closes/removes the queue and resets the stream; handlePendingPeers creates a queue only on the false edge; (R16.4) every outbound push takes its queue from p.peers (lookup/range) in the same event-loop step; (R16.5) both Blacklist implementations use the same key in Add and Contains; (R16.6) a message that was inside the validation pipeline when its forwarder or author was blacklisted is not delivered: the sendMsg arm of the event loop reaches publishMessage only on the false edges of blacklist.Contains(ReceivedFrom) and Contains(author); (shared R15.5/R15.6) a closed queue hands out nothing, even with a backlog, and the writer leaves on the error. (audit round) R16.2: topic state cleared on every path of the arm; (R16.7) a cached message is served to IWANT only on the false edges of both blacklist tests, and only handleIWant reads the cache for sending. NOT decided: expiry of the time-cached blacklist; messages a validation worker hands to the event loop in the same instant the blacklisting is processed are ordered by the loop's select (either order satisfies the property).",
 		Assume:  []string{"the event loop is single-threaded (processLoop owns p.peers)"},
 		Mutants: []Mutant{
 			{Name: "no-recheck-after-validation", File: "pubsub.go", Old: "\t\t\tif p.blacklist.Contains(msg.ReceivedFrom) {\n\t\t\t\tp.logger.Debug(\"dropping validated message from blacklisted peer\"", New: "\t\t\tif false && p.blacklist.Contains(msg.ReceivedFrom) {\n\t\t\t\tp.logger.Debug(\"dropping validated message from blacklisted peer\"", Expect: "R16.6"},
 			{Name: "shouldPush-skip-author-blacklist", File: "pubsub.go", Old: "\t// even if they are forwarded by good peers\n\tif p.blacklist.Contains(msg.GetFrom()) {", New: "\t// even if they are forwarded by good peers\n\tif p.blacklist.Contains(msg.GetFrom()) && msg.GetFrom() != src {", Expect: "R16.1"},
-			{Name: "blacklist-arm-no-router-notify", File: "pubsub.go", Old: "\t\t\t\tp.clearPeerFromTopicsState(pid)\n\t\t\t\tp.rt.OnClosedOutboundStream(pid)\n\t\t\t}\n\n\t\tcase <-ctx.Done():", New: "\t\t\t\tp.clearPeerFromTopicsState(pid)\n\t\t\t}\n\n\t\tcase <-ctx.Done():", Expect: "R16.2"},
+			{Name: "blacklist-arm-no-router-notify", File: "pubsub.go", Old: "\t\t\t\tdelete(p.peers, pid)\n\t\t\t\tp.rt.OnClosedOutboundStream(pid)\n\t\t\t}\n\t\t\t// what the peer announced", New: "\t\t\t\tdelete(p.peers, pid)\n\t\t\t}\n\t\t\t// what the peer announced", Expect: "R16.2"},
+			{Name: "blacklist-arm-clears-topics-only-with-queue", File: "pubsub.go", Old: "\t\t\t\tp.rt.OnClosedOutboundStream(pid)\n\t\t\t}\n\t\t\t// what the peer announced came in over its own stream, whether or not we have one to it\n\t\t\tp.clearPeerFromTopicsState(pid)\n", New: "\t\t\t\tp.rt.OnClosedOutboundStream(pid)\n\t\t\t\tp.clearPeerFromTopicsState(pid)\n\t\t\t}\n", Expect: "R16.2"},
+			{Name: "iwant-serves-blacklisted-source", File: "gossipsub.go", Old: "\t\t\tif gs.p.blacklist.Contains(msg.ReceivedFrom) || gs.p.blacklist.Contains(msg.GetFrom()) {\n\t\t\t\tcontinue\n\t\t\t}\n", New: "\t\t\tif gs.p.blacklist.Contains(msg.GetFrom()) {\n\t\t\t\tcontinue\n\t\t\t}\n", Expect: "R16.7"},
+			{Name: "iwant-serves-blacklisted-author", File: "gossipsub.go", Old: "\t\t\tif gs.p.blacklist.Contains(msg.ReceivedFrom) || gs.p.blacklist.Contains(msg.GetFrom()) {\n\t\t\t\tcontinue\n\t\t\t}\n", New: "\t\t\tif gs.p.blacklist.Contains(msg.ReceivedFrom) && gs.p.blacklist.Contains(msg.GetFrom()) {\n\t\t\t\tcontinue\n\t\t\t}\n", Expect: "R16.7"},
 			{Name: "blacklist-arm-skip-when-already-listed", File: "pubsub.go", Old: "\t\t\tp.blacklist.Add(pid)\n\n\t\t\tq, ok := p.peers[pid]", New: "\t\t\tif !p.blacklist.Add(pid) {\n\t\t\t\tcontinue\n\t\t\t}\n\n\t\t\tq, ok := p.peers[pid]", Expect: "R16.2"},
 			{Name: "closed-stream-mesh-removal-conditional", File: "gossipsub.go", Old: "\tdelete(gs.peers, p)\n\tfor topic, peers := range gs.mesh {", New: "\tif _, known := gs.peers[p]; !known {\n\t\treturn\n\t}\n\tdelete(gs.peers, p)\n\tfor topic, peers := range gs.mesh {", Expect: "R07.5"},
 			{Name: "newstream-hello-before-blacklist", File: "pubsub.go", Old: "\t\t\tif p.blacklist.Contains(pid) {\n\t\t\t\tp.logger.Warn(\"closing stream for blacklisted peer\", \"peer\", pid)", New: "\t\t\tif p.blacklist.Contains(pid) && q != nil && q.closed {\n\t\t\t\tp.logger.Warn(\"closing stream for blacklisted peer\", \"peer\", pid)", Expect: "R16.3"},
@@ -539,6 +542,10 @@ func runC16(c *RuleCtx) {
 				return false
 			})
 			c.Check(okLook, "R16.2", f.Name, "queue lookup (cleanup decision) on every path of the arm", clause, "always reached", "the blacklist arm can leave before looking up the peer's queue: an already connected peer would keep its queue, topic membership and mesh slots")
+			// topic membership is learnt from the peer's own (inbound) stream, which exists independently of our
+			// queue to it: it is forgotten on every path of the arm, not only when a queue is present
+			okClr, _ := g.MustPass(Point{body, 0}, PassOpts{Until: until}, p.callPred(f, "(*PubSub).clearPeerFromTopicsState"))
+			c.Check(okClr, "R16.2", f.Name, "topic state cleared on every path of the arm", clause, "always", "BlacklistPeer forgets the peer's topics only when an outbound queue exists: a peer known only through its inbound stream (stream set-up, failed or refused outbound stream) stays in p.topics, is counted by EnoughPeers and reported to new event handlers")
 			var edges []Edge
 			for _, e := range g.AtomEdges(present, true) {
 				if within(e.From.Nodes[len(e.From.Nodes)-1], clause) {
@@ -680,6 +687,52 @@ func runC16(c *RuleCtx) {
 			c.Undecided("R16.6", f.Name, "sendMsg arm", f.Decl, "no publishMessage call in the arm receiving from PubSub.sendMsg")
 		}
 	}
+	// R16.7 the message cache outlives the blacklisting of a message's source: answering IWANT from it is
+	// forwarding, so a cached message goes into the reply only on the false edges of both blacklist tests
+	if f := c.MustFn("R16.7", "(*GossipSubRouter).handleIWant"); f != nil {
+		blSrc := AtomBool("blacklist.Contains(ReceivedFrom)", func(v *V) bool {
+			return v.IsCall(fnBLContains) && len(v.Args) == 2 && v.Args[1].IsField("Message.ReceivedFrom")
+		})
+		blFrom := AtomBool("blacklist.Contains(GetFrom())", func(v *V) bool {
+			return v.IsCall(fnBLContains) && len(v.Args) == 2 && stripConv(v.Args[1]).IsCall(fnMsgGetFrom)
+		})
+		fromCache := func(v *V) bool {
+			return v.Has(func(x *V) bool { return x.IsCall("(*MessageCache).GetForPeer") || x.IsCall("(*MessageCache).Get") })
+		}
+		n := 0
+		use := func(val ast.Expr, at ast.Node) {
+			if !fromCache(p.R(f).Val(val)) {
+				return
+			}
+			n++
+			ok, why := p.DomAny(f, at, AtomWant{blSrc, false})
+			c.Check(ok, "R16.7", f.Name, "cached message served only if its forwarder is not blacklisted", at, why, "IWANT is answered with a cached message whose forwarder may have been blacklisted since it was cached: "+why)
+			ok, why = p.DomAny(f, at, AtomWant{blFrom, false})
+			c.Check(ok, "R16.7", f.Name, "cached message served only if its author is not blacklisted", at, why, "IWANT is answered with a cached message whose author may have been blacklisted since it was cached: "+why)
+		}
+		for _, mi := range p.mapInserts(f) {
+			if as := mi.Stmt; as != nil && len(as.Rhs) == 1 {
+				use(as.Rhs[0], mi.Stmt)
+			}
+		}
+		for _, ap := range p.localAppends(f) {
+			if as := ap.Stmt; as != nil && len(as.Rhs) == 1 {
+				if ce, ok := unparen(as.Rhs[0]).(*ast.CallExpr); ok {
+					for _, a := range ce.Args[1:] {
+						use(a, ap.Stmt)
+					}
+				}
+			}
+		}
+		if n == 0 {
+			c.Undecided("R16.7", f.Name, "cached message put into the reply", f.Decl, "no map insert/append of a value obtained from the message cache")
+		}
+		// inventory: the cache is read for sending only here
+		for _, cs := range p.AllSites("(*MessageCache).GetForPeer", "(*MessageCache).Get") {
+			root := cs.Fn.Root().Name
+			c.Check(root == f.Name, "R16.7", root, "message cache read for sending only by handleIWant", cs.Call, "handleIWant", "the message cache is also read by "+root+", which is not covered by the blacklist re-check")
+		}
+	}
 	// "nothing further is sent" after the queue was closed rests on the queue itself: a closed queue hands out
 	// nothing (even with a backlog) and the writer leaves on the error — decided under C15, re-evaluated here
 	{
@@ -694,8 +747,9 @@ func runC16(c *RuleCtx) {
 		c.Min["R15.6"] = 2
 	}
 	c.Min["R16.6"] = 2
+	c.Min["R16.7"] = 3
 	c.Min["R16.1"] = 4
-	c.Min["R16.2"] = 6
+	c.Min["R16.2"] = 7
 	c.Min["R07.5"] = 4
 	c.Min["R16.3"] = 4
 	c.Min["R16.4"] = 5
